@@ -458,10 +458,11 @@ class World:
 
     def saver_time(self):
         run = self.run
+        if self.cfg.get('window'):
+            # large rep_max: a solver decision per repetition would exceed the
+            # engine's per-path decision bound; no time passes (kA = kB = 0)
+            return Fraction(0)
         lst = self.instants[run]
-        if lst and (not self.armed() or
-                    (run == 'B' and self.cfg.get('window'))):
-            return lst[-1]
         t = self.drv.instant(run, len(lst), lst[-1] if lst else None,
                              lst[0] if lst else None)
         lst.append(t)
@@ -687,10 +688,15 @@ def scenario(cfg, drv, keep=False):
             out['b'] = 'failed:' + type(e).__name__
             out['b_exc'] = repr(e)[:300]
         out['reads_B'] = list(fs.reads)
-        if b_exc is None and cfg.get('index') is None:
-            out['digits_B_full'] = [
+        # outcome summary, comparable with real_fs_restart()
+        if b_exc is not None:
+            out['outcome_B'] = out['b']
+        elif cfg.get('index') is None:
+            out['outcome_B'] = ['completed'] + [
                 sorted(_digits_of(b.results, v, world.nb).items())
                 for v in range(nvar)]
+        else:
+            out['outcome_B'] = ['completed', b.runned_reps]
         # first variation whose durably saved file is for other parameters
         mismatch = None
         for v in todo:
@@ -888,20 +894,33 @@ class _Base(Harness):
     unit_wall_s = {'quick': 200, 'thorough': 1500}
     max_paths = 400000
 
+    _sampled = {}
+
     def sym(self, ctx, cfg):
         out = scenario(cfg, SymDriver(ctx, cfg))
+        key = repr(sorted(cfg.items()))
+        n_s = _Base._sampled.get(key, 0)
+        smt2 = None
+        if n_s < 2:
+            # path condition of this history (crash index, clock, skips)
+            _Base._sampled[key] = n_s + 1
+            smt2 = ('; history: first run %s at %r; restart %s; durably '
+                    'saved %r; executed by restart %r\n' %
+                    (out['a'], out['crash'], out['b'], out['saved'],
+                     out['executed_B'])) + ctx.smt2()[:1800]
         kind = out['crash']['kind'] if out['crash'] else 'no-crash'
         info = dict(crash=out['crash'], a=out['a'], b=out['b'],
                     saved=out['saved'], torn=out['torn'],
                     executed_B=out['executed_B'])
         if not out['tags']:
             ctx.record('resume@%s' % kind, 'unsat', 'concrete-oracle',
-                       detail=info)
+                       detail=info, smt2=smt2)
         else:
             m = ctx.witness() or {}
             for t in out['tags']:
                 ctx.record('resume@%s:%s' % (kind, t), 'sat',
-                           'concrete-oracle', model=m, detail=info)
+                           'concrete-oracle', model=m, detail=info,
+                           smt2=smt2)
         for n in out['notes']:
             if n not in ctx.notes:
                 ctx.notes.append(n)
@@ -921,12 +940,19 @@ class _Base(Harness):
                       merged_digits=out.get('digits_B'), tags=out['tags'],
                       write_calls_first_run=out['writes_A'])
         if hit:
-            # the same disk state on the real file system
+            # the same disk state on the REAL file system: the restart must
+            # behave there exactly as on the in-memory disk, otherwise the
+            # model (not the code) is at fault and nothing is reported
             try:
-                detail['restart_on_real_file_system'] = real_fs_restart(
-                    cfg, out['snapshot'], out['next_id'])
+                real = real_fs_restart(cfg, out['snapshot'], out['next_id'])
             except Exception as e:  # pragma: no cover
-                detail['restart_on_real_file_system'] = 'error: %r' % (e, )
+                real = 'error: %r' % (e, )
+            detail['restart_on_real_file_system'] = real if isinstance(
+                real, str) else [real[0]] + [x if isinstance(x, int) else
+                                             x[:8] for x in real[1:]]
+            if real != out['outcome_B']:
+                detail['model_disagrees_with_real_file_system'] = True
+                hit = False
         return dict(reproduced=hit, key=key_of(want), detail=detail)
 
     def concrete(self, cfg, rng):
@@ -942,12 +968,7 @@ class _Base(Harness):
         for c in cs:
             out = scenario(cfg, ModelDriver({'c': c}), keep=True)
             real = real_fs_restart(cfg, out['snapshot'], out['next_id'])
-            if out['b'] != 'completed':
-                model = out['b']
-            elif cfg.get('index') is None:
-                model = ['completed'] + out['digits_B_full']
-            else:
-                model = ['completed', cfg.get('rep_max_B', cfg['rep_max'])]
+            model = out['outcome_B']
             if model != real:
                 raise AssertionError(
                     'in-memory model and real file system disagree at crash '
@@ -968,14 +989,16 @@ def _cfg(fmt='pickle', rep_max=3, delete=False, kA=1, kB=0, skips=False,
 class Resume(_Base):
     """kill run A at every event, restart with the same parameters"""
     name = 'resume'
-    bounds = ('grid of 2 variations; rep_max 1..3 (quick) / 1..5 and '
-              '499,500,501,1000,1001 (thorough, crash points and clock ticks '
-              'within +-2 repetitions of every save); final results file '
+    bounds = ('grid of 2 variations; rep_max 1..3 and 499,500,501 (quick; for '
+              'the large ones crash points within +-1 repetition of the start, '
+              'of every 500-repetition save and of the end) / 1..6, 8 and '
+              '499,500,501,1000,1001 (thorough, +-2 repetitions; no '
+              'time-triggered save for the large ones); final results file '
               '.pickle and .json; delete_partial_results on/off; <= 1 (quick) '
               '/ 2 (thorough) time-triggered saves in run A, <= 1 in run B; '
-              '<= 1 SkipThisOne per variation and run; disk blocks of 256 '
-              'bytes (64 in some thorough configurations); simulate() and '
-              'simulate(index)')
+              '<= 1 SkipThisOne per variation and run (never on the first '
+              'call of a variation); disk blocks of 256 bytes (16, 64, 1024 '
+              'in some configurations); simulate() and simulate(index)')
 
     def configs(self, tier):
         out = []
@@ -984,22 +1007,29 @@ class Resume(_Base):
                 for r in (1, 2, 3):
                     for dele in (False, True):
                         out.append(_cfg(fmt, r, dele, kA=1, kB=0))
-            out.append(_cfg('pickle', 3, False, kA=0, kB=1))
+            out.append(_cfg('pickle', 3, False, kA=1, kB=1))
             out.append(_cfg('pickle', 3, False, kA=0, kB=0, skips=True))
             out.append(_cfg('pickle', 3, False, kA=1, kB=0, index=1))
             out.append(_cfg('pickle', 2, False, kA=0, kB=0, chunk=64))
+            for r in (499, 500, 501):
+                out.append(_cfg('pickle', r, False, kA=0, kB=0, window=1,
+                                chunk=1024))
         else:
             for fmt in ('pickle', 'json'):
                 for r in (1, 2, 3, 4, 5):
                     for dele in (False, True):
-                        out.append(_cfg(fmt, r, dele, kA=2 if r <= 4 else 1,
-                                        kB=0))
+                        out.append(_cfg(fmt, r, dele, kA=2, kB=0))
             for r in (2, 3, 4, 5):
                 out.append(_cfg('pickle', r, False, kA=1, kB=1))
-                out.append(_cfg('pickle', r, False, kA=0, kB=0, skips=True))
                 out.append(_cfg('pickle', r, False, kA=1, kB=0, index=1))
                 out.append(_cfg('pickle', r, False, kA=1, kB=0, index=0))
+            for r in (2, 3, 4):
+                out.append(_cfg('pickle', r, False, kA=0, kB=0, skips=True))
+            for r in (6, 8):
+                out.append(_cfg('pickle', r, False, kA=1, kB=0))
+            out.append(_cfg('pickle', 3, False, kA=2, kB=1))
             out.append(_cfg('pickle', 3, False, kA=1, kB=0, skips=True))
+            out.append(_cfg('json', 3, True, kA=0, kB=1, skips=True))
             out.append(_cfg('pickle', 3, False, kA=0, kB=0, chunk=16))
             out.append(_cfg('json', 3, True, kA=0, kB=0, chunk=64))
             for r in (499, 500, 501, 1000, 1001):
@@ -1007,6 +1037,8 @@ class Resume(_Base):
                                 chunk=1024))
             out.append(_cfg('json', 501, True, kA=0, kB=0, window=2,
                             chunk=1024))
+            out.append(_cfg('pickle', 1001, False, kA=0, kB=0, window=2,
+                            chunk=256, index=1))
         return out
 
 
